@@ -13,6 +13,7 @@ import PercevalModel.Lemmas.C11More
 import PercevalModel.Lemmas.C11Adj
 import PercevalModel.Lemmas.C11Copy
 import PercevalModel.Lemmas.C11Heur
+import PercevalModel.Lemmas.C11Regroup
 import PercevalModel.Props.C01
 import PercevalModel.Num.GQ
 
@@ -717,6 +718,69 @@ example : (∀ s ∈ exSteps.map (fun s => (s.it, s.wantDrop)), s.1.WF exInterp 
   intro s hs
   simp only [exSteps, List.map_cons, List.map_nil, List.mem_cons, List.not_mem_nil, or_false] at hs
   rcases hs with rfl | rfl | rfl | rfl <;> simp [Item.WF, exInterp] <;> decide
+
+/-! ## I. regrouping as a whole: `non_unitary_circuit()` / `unitary_circuit()` on lists with
+non-unitary components
+
+`regroup I N es pending` is the loop of `non_unitary_circuit()` over the flattened list `es`
+(`Entry.uni`: an `ACircuit`, `Entry.non`: loss channel, time delay, …).  `ungroup` replaces every
+block by the components it was computed from; `denE` is the denotation of a flattened list (every
+maximal run of unitary components: the ordered product of their embedded matrices; non-unitary
+components: themselves), `Group.den` the denotation of a block (`Unitary(u[min_r:max_r, …])` embedded at
+`min_r`) — `Lemmas/C11Regroup.lean`. -/
+
+/-- **nothing is lost, duplicated or reordered** by the regrouping: un-grouping the output gives back
+the flattened list, for every list (any mixture of unitary and non-unitary components). -/
+theorem regroup_ungroup [CommRing R] (I : R) (N : ℕ) (es : List (ℕ × Entry R)) :
+    ungroup (regroup I N es []) = es := by
+  simpa using regroup_ungroup' I N es []
+
+/-- **block boundaries are exactly at the non-unitary components**: the output never holds two
+consecutive blocks (a block is a MAXIMAL run of unitary components — together with `regroup_ungroup`:
+the runs between consecutive non-unitary components), every block holds at least one component and
+is placed on `range(min_r, max_r)` of its own components. -/
+theorem regroup_boundaries [CommRing R] (I : R) (N : ℕ) (es : List (ℕ × Entry R)) :
+    NoAdjBlocks (regroup I N es []) ∧ ∀ g ∈ regroup I N es [], g.BlockOK I N :=
+  ⟨regroup_noAdj' I N es [], regroup_blockOK' I N es []⟩
+
+/-- **the regrouped list denotes what the flattened list denotes** (all lists whose unitary components
+fit the `N` modes): block after block the matrix handed to `Unitary(...)`, put back on its range, is the
+ordered product of the unitary components of that run; the non-unitary components stand between the
+blocks exactly where they stood between the runs. -/
+theorem regroup_denotation [CommRing R] (I : R) (N : ℕ) (es : List (ℕ × Entry R))
+    (hfit : EntriesFit I N es) :
+    (regroup I N es []).map (Group.den I N) = denE I N es none :=
+  regroup_den' I N es [] hfit (by simp)
+
+/-- a loss channel between two beam splitters, a phase shifter after the second one -/
+def exEntries : List (ℕ × Entry GQ) :=
+  [(0, .uni (.leaf (.bs (exBS .Rx)))), (1, .non 7 1), (1, .uni (.leaf (.bs (exBS .H)))),
+   (2, .uni (.leaf (.ps GQ.I)))]
+
+example : EntriesFit GQ.I 3 exEntries ∧ (regroup GQ.I 3 exEntries []).map Group.isBlock = [true, false, true] := by
+  refine ⟨?_, rfl⟩
+  intro e he
+  simp only [exEntries, List.mem_cons, List.not_mem_nil, or_false] at he
+  rcases he with rfl | rfl | rfl | rfl <;> simp [Cmp.toC01, C01.Comp.size, Leaf.size]
+
+/-- **`unitary_circuit()`** (defined — no `RuntimeError` — exactly when no non-unitary component was
+added): the regrouping of an all-unitary non-empty list is ONE block, and that block put back on its
+range is the matrix of the unitary circuit. -/
+theorem unitary_circuit_block [CommRing R] (I : R) (N : ℕ) (es : List (ℕ × Entry R))
+    (comps : List (ℕ × Cmp R)) (h : unitaryCircuit es = some comps) (hne : comps ≠ [])
+    (hfit : ∀ p ∈ comps, p.1 + (p.2.toC01 I).size ≤ N) :
+    ∃ r0 w, regroup I N es [] = [.blockOf r0 w comps] ∧
+      embed N r0 (Group.blockMat I N r0 w comps) = prodList I N comps := by
+  rw [unitaryCircuit_eq_some h, regroup_all_uni I N comps []]
+  refine ⟨_, _, ?_, block_embed_pending I N comps hfit⟩
+  unfold flush
+  cases comps with
+  | nil => exact absurd rfl hne
+  | cons a b => rfl
+
+example : unitaryCircuit ([(0, .uni (.leaf (.bs (exBS .Rx)))), (1, .uni (.leaf (.ps GQ.I)))] :
+      List (ℕ × Entry GQ)) = some [(0, .leaf (.bs (exBS .Rx))), (1, .leaf (.ps GQ.I))] ∧
+    unitaryCircuit exEntries = none := ⟨rfl, rfl⟩
 
 /-! ## Still NOT proved (validated by the correspondence only)
 
